@@ -14,16 +14,20 @@ import tempfile
 args = sys.argv[1:]
 sid = args.pop(0)
 name = sid
-if args and args[0] == "--name":
-    args.pop(0)
-    name = args.pop(0)
+srcroot = "/tmp/seed"
+while args and args[0].startswith("--"):
+    a = args.pop(0)
+    if a == "--name":
+        name = args.pop(0)
+    elif a == "--src":
+        srcroot = args.pop(0)
 checks = args
-log = open("/tmp/seed/confirm_%s.log" % sid).read()
+log = open("%s/confirm_%s.log" % (srcroot, sid)).read()
 res = json.loads(log[log.find("{"):log.rfind("}") + 1])
 missing = re.findall(r"NOT PASSING: (\S+)", res.get("suite_summary", ""))
 m = re.search(r"missing_from_stable=(\d+)", res.get("suite_summary", ""))
 nmiss = int(m.group(1)) if m else None
-src = "/tmp/seed/%s.out" % sid
+src = "%s/%s.out" % (srcroot, sid)
 wt = tempfile.mkdtemp(prefix="seedwt.", dir="/tmp")
 os.rmdir(wt)
 subprocess.check_call(["git", "-C", "/repo", "worktree", "add", "-q", "--detach", wt, "HEAD"])
